@@ -166,7 +166,7 @@ CHECKS = {
    text='PARTIAL (core calculus; the full multiplicity statement is refuted). Proved on the translated bounds algebra (Gen_Card.v): n-ary product / union / coalesce / intersect bounds are sound, the partial enum/dict operations never fail, bounds<->cardinality round trip. Proved for every schema, conforming database, expression of the calculus and evaluation: when no over-claiming rule fires (executable side condition run_tags = []), |eval e| lies within the reported cardinality (C06_card_sound), UNIQUE implies NoDup (C06_mult_sound), every computed shape element lies within its out_cardinality (C06_shape_sound); '
         'Refuted.v holds vm_compute witnesses that each statement without the side condition is false of the faithful model (known findings C06-F1..F6, F9). Tie: generated binder-explicit core queries over generated schemas compiled by the REAL compiler — ir.cardinality / ir.multiplicity / shape out_cardinality must equal the model\'s; the Coq eval agrees with toy_eval_model on the common fragment; upstream\'s 260 pinned inference labels must hold; '
         'monitor independent of the model: every query (incl. an exploration stream with implicit path factoring) is evaluated by toy_eval_model on random conforming databases incl. empty tables and compared with the compiler\'s answer. Ten genuine over-claims are known findings.',
-   note='Trusted: Coq kernel; extraction; translator; harness; vrt substrate; toy_eval_model as reference semantics (plus harness-added assert_*, array_get, empty-safe min/max). Outside the calculus (monitors only): implicit path factoring, GROUP, DML, globals, schema-computed pointers, inheritance, link properties; FOR-disjointness (TFor) instances are covered by monitors only. No axioms.'),
+   note='Trusted: Coq kernel; extraction; translator; harness; vrt substrate; toy_eval_model as reference semantics (plus harness-added assert_*, array_get, empty-safe min/max). Outside the calculus (monitors only): implicit path factoring, GROUP, DML, globals, schema-computed pointers, inheritance, link properties; FOR-disjointness (TFor) instances are covered by monitors only. Not modelled: the compiler\'s second inference of a re-applied shape (viewgen.late_compile_view_shapes), which can only add rejections; those rejections are observed inside the real compiler by the driver, counted in the evidence and left out of the accept/reject comparison. No axioms.'),
  'C13': dict(
    category='translation_validation', design_ref='DESIGN.md section 4, C13 (+ section 9 change log)',
    technique='Coq-verified SQL scope checker (sound and complete w.r.t. a declarative transcription of PostgreSQL name resolution) and parameter checker, run on an abstraction of every SQL tree the real compiler emits; two-compilation / cross-hash-seed determinism test',
